@@ -159,7 +159,7 @@ def _items():
     add('RE_STATIC',
         'pub static RE_STATIC: ::std::sync::LazyLock<::regex::Regex> = ::std::sync::LazyLock::new(|| ::regex::Regex::new("^[a-z]+[0-9]?$").unwrap());\n', '')
     add('Meters',
-        '#[derive(Debug, Clone, Copy, PartialEq)]\npub struct Meters(pub i32);\n'
+        '#[derive(Debug, Clone, Copy, PartialEq, Default)]\npub struct Meters(pub i32);\n'
         'impl<\'a> arbitrary::Arbitrary<\'a> for Meters { fn arbitrary(u: &mut arbitrary::Unstructured<\'a>) -> arbitrary::Result<Self> { Ok(Meters(u.arbitrary()?)) } }\n'
         'pub fn san_m(m: Meters) -> Meters { Meters(if m.0 > 50 { 50 } else { m.0 }) }\n',
         '')
